@@ -195,6 +195,10 @@ def read_num_token(i, s):
             elif "o" == raw_base: base = 8
             elif "x" == raw_base: base = 16
         try:
+            # int() accepts a base prefix of its own: int("0b1", base=2) == 1,
+            # so '0b0b1' would be read as 1. Here 'b' is a bad digit.
+            if base == 2 and m.group(2)[1:2] in ("b", "B"):
+                raise ValueError(m.group(2))
             return Token(Tokens.NUM, m.start(), m.end(),
                          value=int(m.group(2), base=base))
         except ValueError:
